@@ -456,8 +456,8 @@ def run(ctx):
     for k in KINDS:
         ctx.require("executed." + k, 10)
     ctx.require("emit.file", 10)
-    g = IRGen(ctx.rng, knobs(hostile_strings=not ctx.quick(), p_doc_states_default=0.15))
-    ga = IRGen(ctx.rng, knobs(hostile_strings=not ctx.quick(), argparse_domain=True, p_doc_states_default=0.15))
+    g = IRGen(ctx.rng, knobs(hostile_strings=not ctx.quick(), p_doc_states_default=0.15, p_hyphen_tokens=0.3))
+    ga = IRGen(ctx.rng, knobs(hostile_strings=not ctx.quick(), argparse_domain=True, p_doc_states_default=0.15, p_hyphen_tokens=0.3))
     n = ctx.n(1500, 30000)
     spaces = {k: option_space(k) for k in KINDS}
     tmpdir = tempfile.mkdtemp(prefix="dtverif-c06-")
